@@ -29,6 +29,9 @@ def run(tier, seed, replay_path=None):
     from . import C02
     C02.bmc_nonzero(ck, tier)
     wire_roundtrip(ck, tier)
+    # what a client reads back over a connection (the write path behind the encoder): part by part the encoder's output
+    from . import C11
+    C11.connection_level(ck, tier)
     return ck.finish()
 
 
